@@ -257,6 +257,6 @@ fn main() {
     let check = Check::new("C17", "exploration");
     check.rule("programs of 1-5 streams (filters with/without emit, distinct, limit as inner nodes; windows/aggregates, sequences, joins as leaves) wired into chains and diamonds over A,B,C; <=40 events, random batch split; all four entry points. Hook H3 records every (stream, event type, event id) handed to a stream's pipeline. Oracle: the recorded multiset equals the expected deliveries computed by forward propagation through the program's DECLARED consumption graph with a model of the pass-like operators (filter condition, v+1 emit, distinct(v), limit(n)): none missing, none twice, none to a stream that consumes neither the type nor the stream name. Non-trivial = a diamond or a stream without downstream consumer, with >=1 derived delivery.");
     check.assume("hook H3 sits at the top of process_stream_with_functions / process_stream_sync; filter conditions only over fields that are always present; cycles / chains beyond depth 10 are not generated");
-    check.explore("deliveries", strat, 3_000, 50_000, run);
+    check.explore("deliveries", strat, 10_000, 100_000, run);
     check.finish();
 }
